@@ -33,6 +33,11 @@ TRUSTED = [
     "Coq 8.16.1 kernel and vm_compute; no axioms; no extraction",
 ]
 ASSUMPTIONS = [
+    "state the getters do not show (LayerContents.path_set / Layer.path_set, the lower-cased names in use) is not "
+    "part of the model's lfont; it is observed on the implementation by applying the same post-load script to the "
+    "partial load and to the restricted full load (new_layer / get_or_create_layer with the names of the left-out "
+    "layers and case variants, a rename onto a left-out directory, glyphs of left-out layers inserted) and comparing "
+    "Layer::path() and every get_path; by C06's invariant the index is the lower-cased directories of the layers present",
     "format 3 only (the property's scope); UFO 1/2 loads re-read lib.plist regardless of the switch (Appendix A)",
     "C17_not_read needs a well-formed UFO: layer directories / glif paths are distinct plain names that do not "
     "collide with other parts' files",
